@@ -250,6 +250,7 @@ func (w *World) Run(m *Msg, fault []int) (*Exec, *spec.Verdict) {
 	if ex.FaultHit {
 		w.Stats.Faults["dep:"+DepNames[fk]]++
 	}
+	w.parserTotality(ex)
 	call := CallOf(ex)
 	if ex.FaultHit && !IsHardDep(fk) {
 		// a fail-soft dependency (storage read, pause lookup) failed: the interface lets the call go
@@ -341,6 +342,25 @@ func (w *World) checkActivation(nd *Node, fn string, active bool) {
 	if want != active {
 		w.violate(spec.Violation{Props: spec.P("C18"), Clause: "activation", Detail: fmt.Sprintf("shard %d: %s reports active=%v with last confirmed epoch %d and activation epoch %d", nd.ID, fn, active, nd.Clock.Current, nd.Cfg.ActivationEpoch)})
 	}
+}
+
+// parserTotality: the ESDT-transfer parser must return a result or an error for every call that
+// reaches a node, accepted or not (C12).
+func (w *World) parserTotality(ex *Exec) {
+	switch ex.Func {
+	case spec.FnESDTTransfer, spec.FnESDTNFTTransfer, spec.FnMultiTransfer:
+	default:
+		return
+	}
+	w.Stats.ParserChecks++
+	func() {
+		defer func() {
+			if r := recover(); r != nil {
+				w.violate(spec.Violation{Props: spec.P("C12"), Clause: "parser-totality", Detail: fmt.Sprintf("ParseESDTTransfers panicked on traffic %q (snd %x rcv %x): %v", ex.Msg.Data, ex.Msg.Snd, ex.Msg.Rcv, r)})
+			}
+		}()
+		_, _ = w.parser.ParseESDTTransfers(ex.Msg.Snd, ex.Msg.Rcv, ex.Func, ex.Args)
+	}()
 }
 
 // wireChecks: every emitted data string must parse with the real parser into what the oracle's
@@ -625,6 +645,14 @@ func (w *World) Deliver(id string, fault []int) bool {
 	w.logf("deliver %s kind=%s shard=%d", m.ID, m.Kind, m.DstShard)
 	ex, vd := w.Run(m, fault)
 	ok := ex.Succeeded() && vd != nil && vd.MustFail == ""
+	if !ok && ex.FaultHit && (m.Kind == KindControl || m.Tag != "") {
+		// a control or hand-over message whose execution was rolled back by an injected dependency
+		// failure is processed again later (same place in its stream): the system-contract model
+		// assumes its messages are eventually executed
+		w.Pool = append(w.Pool[:pos:pos], append([]*Msg{m}, w.Pool[pos:]...)...)
+		w.Stats.Probes["control-retried-after-fault"]++
+		return true
+	}
 	if m.Kind == KindRefund && ok {
 		w.Stats.Probes["refund-executed"]++
 	}
